@@ -152,12 +152,15 @@ class Sampler:
         return self.count < max(self.want)
 
     def _candidate_without_root(self) -> bool:
+        """Exactly the condition under which the verdict would report `unattributed` growth from the first three samples."""
         s2, s3 = self.samples[-2], self.samples[-1]
-        if (s3["gc"] - s2["gc"]) / 300.0 < SLOPE:
+        slope_b = (s3["gc"] - s2["gc"]) / 300.0
+        if slope_b < SLOPE:
             return False
         a2, a3 = s2.get("attributed", {}), s3.get("attributed", {})
-        rooted = sum(max(0, a3.get(r, 0) - a2.get(r, 0)) for r in set(a2) | set(a3)) / 300.0
-        return (s3["gc"] - s2["gc"]) / 300.0 - rooted >= SLOPE / 2
+        flagged = any((a3.get(r, 0) - a2.get(r, 0)) / 300.0 >= SLOPE for r in set(a2) | set(a3))
+        us = (s3.get("unattributed", 0) - s2.get("unattributed", 0)) / 300.0
+        return us >= SLOPE or (not flagged and slope_b >= 2 * SLOPE)
 
     def sample(self, n: int) -> None:
         gc.collect()
@@ -281,7 +284,9 @@ def _run_mode(sc: dict, mode: str, w, stats: dict) -> list[dict]:
         failing = bool(sc.get("failing"))
 
         sampler.by_harness = mode in ("reuse", "fresh", "launches") or (mode == "queue" and bool(sc.get("fire_forget")))
-        sampler.can_extend = mode != "launch"
+        # the single CLI launch has a fixed plan; in queue mode every job is slower than the one before (known finding F10c),
+        # so a three times longer history is not affordable there: both keep the one-interval rule
+        sampler.can_extend = mode in ("reuse", "fresh", "launches")
 
         def one(p, tick=True):
             if tick:
